@@ -2,6 +2,7 @@ package main
 
 import (
 	"fmt"
+	"go/constant"
 	"go/token"
 	"go/types"
 
@@ -16,7 +17,7 @@ func c19(r *Report, s *Sem) {
 	p := r.P
 	a := s.anchors()
 	R1 := r.Rule("R1", "receiver exit ⇒ channel no longer counts as established (client role): every exit path of the receiver goroutine either leaves because the established predicate is false, or was requested by the stop routine (context cancelled), or passes Transport.Close — so the client's reuse test fails and it rebuilds", 1)
-	R2 := r.Rule("R2", "no spin and no stale reuse: the client hands out its cached channel only under the facts state==established ∧ connected, otherwise only a freshly built one; the rebuild loop re-checks the context and sleeps a back-off that grows with the attempt counter on every retry; the background listener goes through getOrBuildChannel and the dispatch loop on every cycle", 5)
+	R2 := r.Rule("R2", "no spin and no stale reuse: the client hands out its cached channel only under the facts state==established ∧ connected, otherwise only a freshly built one; the rebuild loop re-checks the context and sleeps a back-off, counted in milliseconds or more, that grows with the attempt counter on every retry; the background listener goes through getOrBuildChannel and the dispatch loop on every cycle", 6)
 	R3 := r.Rule("R3", "replacement closes: every store of a new channel into Client.channel is preceded on all paths by a releasing call on the previous channel or by the edge 'previous channel is nil'", 1)
 	R4 := r.Rule("R4", "truthful sends: each Client send operation returns either the error of getOrBuildChannel or the result of the channel's own guarded send (C06.R1)", 4)
 
@@ -288,6 +289,28 @@ func c19(r *Report, s *Sem) {
 			sleepPos = p.instrPos(sleep)
 		}
 		r.Check(R2, "func "+fnName(gob)+" / back-off grows with the attempt counter", sleepPos, grows, "the sleep duration must depend on a counter incremented on every retry")
+		// the slept value is scaled to at least milliseconds: constant factors of its multiplications reach 1e6 ns
+		scale := 1.0
+		if sleep != nil {
+			for _, l := range backSlice(sleep.Call.Args[0], 12) {
+				if b, ok := l.(*ssa.BinOp); ok && b.Op == token.MUL {
+					for _, o := range []ssa.Value{b.X, b.Y} {
+						if c, ok := o.(*ssa.Const); ok && c.Value != nil {
+							f, _ := constant.Float64Val(constant.ToFloat(c.Value))
+							if f < 0 {
+								f = -f
+							}
+							scale *= f
+						}
+					}
+				} else if c, ok := l.(*ssa.Const); ok && l == stripConv(sleep.Call.Args[0]) && c.Value != nil {
+					if f, _ := constant.Float64Val(constant.ToFloat(c.Value)); f > scale {
+						scale = f
+					}
+				}
+			}
+		}
+		r.Check(R2, "func "+fnName(gob)+" / back-off is counted in milliseconds or more", sleepPos, scale >= 1e6, fmt.Sprintf("constant factors of the slept duration multiply to %.0f ns per unit: a bare number converted to time.Duration is nanoseconds, and the rebuild loop spins", scale))
 		ctxCheck := condGuard(buildCall.Block(), func(cd Cond) bool {
 			if cd.Op != token.EQL {
 				return false
